@@ -240,7 +240,7 @@ int main(int argc, char** argv) {
   bool T = h.thorough;
   h.add_space("conformance", NSHAPES * 15, run_conf);
   for (int si = 0; si < NSHAPES; si++) {
-    if (!T && si == 5) continue;   // the 300-block shape: thorough only
+    // (all six shapes in both tiers: the 300-block shape with 40 keys is the one whose header overflows after data exist)
     size_t L = ctx(si).log.size();
     h.add_space(vf::fmt("fault-%s", SHAPES[si].name), L * 6, [si](uint64_t i) { run_fault(si, i); });
     h.add_space(vf::fmt("crash-op-%s", SHAPES[si].name), L + 1, [si](uint64_t i) { run_crash_op(si, i); });
